@@ -261,6 +261,8 @@ type Feed struct {
 	// Stale, when set, fills the tail of the caller's buffer beyond n with this byte
 	// (stale bytes from an earlier, longer packet).
 	Stale *byte
+	// NoLog disables the Reads record (long-running memory measurements).
+	NoLog bool
 }
 
 // FeedItem is one scripted read result.
@@ -297,7 +299,9 @@ func (f *Feed) Read(b []byte, a interceptor.Attributes) (int, interceptor.Attrib
 	defer f.mu.Unlock()
 	stamp := f.clk.Tick()
 	if len(f.queue) == 0 {
-		f.Reads = append(f.Reads, FeedRead{Stamp: stamp, Err: ErrFeedEmpty})
+		if !f.NoLog {
+			f.Reads = append(f.Reads, FeedRead{Stamp: stamp, Err: ErrFeedEmpty})
+		}
 		return 0, a, ErrFeedEmpty
 	}
 	it := f.queue[0]
@@ -317,7 +321,9 @@ func (f *Feed) Read(b []byte, a interceptor.Attributes) (int, interceptor.Attrib
 			b[i] = *f.Stale
 		}
 	}
-	f.Reads = append(f.Reads, FeedRead{Stamp: stamp, N: n, Err: it.Err, Data: append([]byte(nil), it.Data[:n]...)})
+	if !f.NoLog {
+		f.Reads = append(f.Reads, FeedRead{Stamp: stamp, N: n, Err: it.Err, Data: append([]byte(nil), it.Data[:n]...)})
+	}
 	if it.Err != nil {
 		// a failed read may still have scribbled the buffer (the "poison" packet)
 		return 0, a, it.Err
